@@ -108,6 +108,21 @@ def build():
         t = 'j' if trait == 'Join' else 'lj'
         member('%s_entities' % t, "unsafe impl<'a> %s for &'a EntitiesRes" % trait, 'entities.rs', EF, "impl<'a> %s for &'a EntitiesRes" % trait, trait,
                props='C02 C06', rules=[_storage._alloc.GEN_ONE_CLOSURE])
+    # `&mut Storage` lending member: its item type depends on the lending lifetime (a GAT), so it cannot be a real impl of the
+    # collapsed trait; open/get are emitted as free functions (N12) with the member's clauses written out
+    LMH = "impl<'a, 'e, T, D> LendJoin for &'a mut Storage<'e, T, D>"
+    u.fn(SM, [LMH, 'fn open'], ret='r', props='C06', free='storage_mut_lend_open', key='lj_storage_mut::open',
+         rules=[('N12', r'fn open\(self\)', "fn open<'a, 'e, 'd, T: Component>(self_: &'a mut Storage<'e, T, &'d mut MaskedStorage<T>>)"),
+                ('N12', r'Self::Mask', "&'a BitSet"), ('N12', r'Self::Value', "&'a mut T::Storage"), ('N12', r'\bself\b', 'self_')],
+         requires=[E('wf', 'old(self_).data.wf()')],
+         ensures=[E('mask', 'r.0@ == old(self_).data.mask@'), E('same_storage', '*r.1 == old(self_).data.inner'),
+                  E('pre', 'forall|id: Index| #![trigger r.1.has(id)] r.0@.contains(id) ==> r.1.has(id)')])
+    u.fn(SM, [LMH, 'fn get'], ret='r', props='C06 C12', free='storage_mut_lend_get', key='lj_storage_mut::get',
+         rules=[('N12', r"fn get<'next>\(", "fn get<'a, 'next, T: Component>("), ('N12', r'Self::Value', "&'a mut T::Storage"), ('N8', r"Self::Type<'next>", "&'next mut T")],
+         requires=[E('inmask', 'old(value).has(id)')],
+         ensures=[E('item', '*r == old(value).val(id) && final(value).val(id) == *final(r)'),
+                  E('only_own', '(forall|j: Index| #![trigger final(value).has(j)] final(value).has(j) == old(value).has(j)) && (forall|j: Index| #![trigger final(value).val(j)] j != id ==> final(value).val(j) == old(value).val(j))'),
+                  E('events', 'final(value).log() == old(value).log() + old(value).ev_get_mut(id)', 'C12')])
     # BitAnd for a one-element tuple (the other arities are macro-generated: not under contract)
     BA = 'src/join/bit_and.rs'
     u.groups['bitand_1'] = dict(header='impl<A> BitAnd for (A,) where A: BitSetLike,', pre='    type Value = A;\n    spec fn and_view(&self) -> Set<u32> { self.0.bview() }\n', private=False)
